@@ -115,3 +115,22 @@ def to_z3(pattern, flags=0):
     if p.state.flags & (sre_c.SRE_FLAG_IGNORECASE | sre_c.SRE_FLAG_MULTILINE | sre_c.SRE_FLAG_VERBOSE):
         raise Unsupported('regex flags i/m/x')
     return _seq(p, dotall)
+
+
+def end_anchored(pattern, flags=0):
+    """every top-level alternative of the pattern ends with $ or \\Z (so that a prefix match is a full match)"""
+    p = sre_parse.parse(pattern, flags)
+
+    def seq_ends(items):
+        items = list(items)
+        if not items:
+            return False
+        op, av = items[-1]
+        if op == sre_c.AT and av in (sre_c.AT_END, sre_c.AT_END_STRING):
+            return True
+        if op == sre_c.SUBPATTERN:
+            return seq_ends(av[3])
+        if op == sre_c.BRANCH:
+            return all(seq_ends(x) for x in av[1])
+        return False
+    return seq_ends(p)
